@@ -246,7 +246,7 @@ def run(ctx):
 
     # ---- model vs implementation
     t0 = time.time()
-    budget = 40000 if ctx.thorough else 1500
+    budget = 40000 if ctx.thorough else 2200
     sel, tot = [], 0
     corp = [c for c in cases if c[0].get("kind", "").startswith("corpus")]
     rest = [c for c in cases if not c[0].get("kind", "").startswith("corpus")]
